@@ -10,6 +10,7 @@ when it fires; the thorough tier asserts that every cell was hit.
 """
 from __future__ import annotations
 
+import os
 import random
 from typing import Any, Callable, Dict, List, Optional, Tuple
 
@@ -69,6 +70,8 @@ class Skip(Exception):
 class C17Engine(C10.C10Engine):
     def __init__(self, env: Env, world: World) -> None:
         super().__init__(env, world, "api")
+        self.readers_seed: Optional[int] = None
+        self.readers_n = 0
 
     # ------------------------------------------------------------ probing
     def expect_raises(self, cell: str, probe: str, f: Callable[[], Any], want: str, ctx: Any) -> None:
@@ -81,9 +84,53 @@ class C17Engine(C10.C10Engine):
                                                  "raised": repr(ex)[:200]}, f"refuse:{cell}:{probe}:raised-{got}")
             self.count(f"fault:{cell}")
             self.count(f"probe:{cell}:{probe}")
+            if self.readers_seed is not None:
+                self.concurrent_readers(cell, probe, f, want, ctx)
             return
         raise Violation(PROP, "refuse", {"after": ctx, "cell": cell, "probe": probe, "expected": want,
                                          "returned": repr(r)[:300]}, f"refuse:{cell}:{probe}:returned")
+
+    def concurrent_readers(self, cell: str, probe: str, f: Callable[[], Any], want: Any, ctx: Any) -> None:
+        """The same probe asked by two simulated threads at once (two readers of one model, pre-empted at
+        seeded line events inside pydbml): each of them has to be refused like a single reader."""
+        import pydbml
+        from . import sched as S
+        from .core import HarnessError
+        self.readers_n += 1
+        rng = random.Random(self.readers_seed * 1000003 + self.readers_n)
+        pol = S.Bernoulli(rng, rng.choice([0.02, 0.08, 0.25, 0.6]))
+        outs: List[Any] = [None, None]
+
+        def mk(i: int) -> Callable[[Any], None]:
+            def fn(th: Any) -> None:
+                try:
+                    outs[i] = ["returned", repr(f())[:300]]
+                except Exception as ex:
+                    outs[i] = ["raised", type(ex).__name__, repr(ex)[:200]]
+            return fn
+        sc = S.Scheduler(pol, (os.path.dirname(os.path.realpath(pydbml.__file__)) + os.sep,), (), step_cap=2_000_000)
+        S.set_active(sc)
+        try:
+            sc.run([mk(0), mk(1)], watchdog_s=60.0)
+        except RuntimeError as ex:
+            raise HarnessError(f"concurrent readers: {ex}")
+        finally:
+            S.set_active(None)
+        if sc.broken or sc.deadlock or any(t.error is not None for t in sc.threads):
+            raise HarnessError(f"concurrent readers: {sc.broken or sc.deadlock or [t.error for t in sc.threads]}")
+        self.count("fault:concurrent-readers")
+        self.count("fault:pre-emption", len(sc.voluntary))
+        wants = want if isinstance(want, tuple) else (want,)
+        for i, o in enumerate(outs):
+            if o[0] == "returned":
+                raise Violation(PROP, "refuse", {"after": ctx, "cell": cell, "probe": probe, "expected": want, "reader": i,
+                                                 "returned": o[1], "other_reader": outs[1 - i],
+                                                 "schedule": sc.schedule_json()},
+                                f"refuse:{cell}:{probe}:returned-to-one-of-two-concurrent-readers")
+            if o[1] not in wants:
+                raise Violation(PROP, "refuse", {"after": ctx, "cell": cell, "probe": probe, "expected": want, "reader": i,
+                                                 "raised": o[2]},
+                                f"refuse:{cell}:{probe}:raised-{o[1]}-under-concurrent-readers")
 
     # ------------------------------------------------------------ one injection cycle
     def cycle(self, cell: str, g: random.Random, ctx: Any) -> None:
@@ -589,6 +636,8 @@ def run_ops(env: Env, wcomp: Dict[str, Any], ops: List[List[Any]]) -> Dict[str, 
             ctx = {"index": idx, "op": op}
             if op[0] == "inject":
                 try:
+                    # one cycle in seven is probed by two concurrent readers as well (decided by the sub-seed)
+                    eng.readers_seed = op[2] if op[2] % 7 == 0 else None
                     eng.cycle(op[1], random.Random(op[2]), ctx)
                     eng.trace.append("inject:rejected")
                 except Skip:
@@ -657,6 +706,7 @@ def generate(env: Env, rseed: int, thorough: bool):
                 op = ["inject", item[1], g.randrange(1 << 30), g.random() < 0.5]
                 ctx = {"index": len(ops), "op": op}
                 try:
+                    eng.readers_seed = op[2] if op[2] % 7 == 0 else None
                     eng.cycle(op[1], random.Random(op[2]), ctx)
                 except Skip:
                     eng.count("skip:" + op[1])
